@@ -102,7 +102,7 @@ impl<'a, 'tcx> B<'a, 'tcx> {
                 v.push(("promoted", J::B(true)));
             }
         }
-        let disp = ty::print::with_no_trimmed_paths!(format!("{}", c.const_));
+        let disp = ty::print::with_no_visible_paths!(ty::print::with_no_trimmed_paths!(format!("{}", c.const_)));
         if disp.len() < 200 {
             v.push(("s", J::s(disp)));
         }
